@@ -3,3 +3,9 @@ package main
 import "github.com/bytedance/sonic/verifbridge"
 
 func bridgeConfig() map[string]string { return verifbridge.Config() }
+
+var (
+	isOptdec = verifbridge.Config()["optdec"] == "1"
+	isVM     = verifbridge.Config()["vm"] == "1"
+	isSSE    = verifbridge.Config()["native"] == "sse"
+)
